@@ -151,10 +151,43 @@ class _FoldNames(ast.NodeTransformer):
         return n
 
 
+class _FoldConst(ast.NodeTransformer):
+    """`A if True else B` -> A, `A if False else B` -> B, `not <const>`: residues of a merged helper spliced with a constant switch"""
+
+    def visit_IfExp(self, n):
+        self.generic_visit(n)
+        if isinstance(n.test, ast.Constant) and isinstance(n.test.value, (bool, type(None), int)):
+            return n.body if n.test.value else n.orelse
+        return n
+
+    def visit_UnaryOp(self, n):
+        self.generic_visit(n)
+        if isinstance(n.op, ast.Not) and isinstance(n.operand, ast.Constant) and isinstance(n.operand.value, (bool, type(None))):
+            return ast.copy_location(ast.Constant(value=not n.operand.value), n)
+        return n
+
+
+def fold_const(e: ast.AST) -> ast.AST:
+    if e is None or not any(isinstance(n, ast.IfExp) and isinstance(n.test, (ast.Constant, ast.UnaryOp)) for n in ast.walk(e)):
+        return e
+    return ast.fix_missing_locations(_FoldConst().visit(copy.deepcopy(e)))
+
+
 def fold_names(e: ast.AST) -> ast.AST:
+    e = fold_const(e)
     if not any(isinstance(n, ast.Call) and isinstance(n.func, ast.Name) and n.func.id == 'getattr' for n in ast.walk(e)):
         return e
     return ast.fix_missing_locations(_FoldNames().visit(copy.deepcopy(e)))
+
+
+def publish_attr(prog) -> str:
+    """the (mangled) attribute in which a _ChildrenList keeps the owner's publish callback: what __init__ stores its third parameter in"""
+    init = prog.funcs.get('task._ChildrenList.__init__')
+    if init is not None and len(init.params) > 3:
+        for st, tgt, val in facts.attr_stores(init, None):
+            if isinstance(val, ast.Name) and val.id == init.params[3] and isinstance(tgt.value, ast.Name) and tgt.value.id == init.self_name:
+                return tgt.attr
+    return '_ChildrenList__setter'
 
 
 def canon_atom(e: ast.AST, render) -> Optional[Tuple[str, bool]]:
@@ -394,9 +427,10 @@ def shared_list(ctx, o):
             if match("self._list", tgt):
                 o.refute(m, st, st, f"{m.name} rebinds the facade's list (`{src(st)[:50]}`): the task and every children list handed out earlier keep "
                                     f"the old object and go stale; the shared list must be changed in place")
-        for c in facts.calls_named(m, '__setter'):
-            if match("self._ChildrenList__setter(self._list)", c) or \
-                    match("self._ChildrenList__setter(self._list)", expand_call(prog, m, ctx.typer, c)):
+        pa = publish_attr(prog)
+        for c in facts.calls_named(m, unmangle(pa)):
+            if match(f"self.{pa}(self._list)", c) or \
+                    match(f"self.{pa}(self._list)", expand_call(prog, m, ctx.typer, c)):
                 o.site(m, c, f"{m.name} publishes the shared list itself")
             else:
                 o.refute(m, c, c, f"{m.name} hands `{src(c.args[0]) if c.args else '?'}` to the task instead of the shared list object: lists handed "
@@ -482,6 +516,7 @@ def fmt(f) -> str:
 
 def cond_formula(e: ast.AST, roles: Roles, extra: Dict[str, str], binder_seen: list):
     """boolean formula of a condition expression over canonical atoms; unknown parts become opaque atoms"""
+    e = fold_const(e)
     if isinstance(e, ast.UnaryOp) and isinstance(e.op, ast.Not):
         return F_not(cond_formula(e.operand, roles, extra, binder_seen))
     if isinstance(e, ast.BoolOp):
@@ -509,6 +544,13 @@ def cond_formula(e: ast.AST, roles: Roles, extra: Dict[str, str], binder_seen: l
     lifted = _lift_ifexp(e)
     if lifted is not None:
         return cond_formula(lifted, roles, extra, binder_seen)
+    im = _id_membership(e)
+    if im is not None:
+        # `A.id in {t.id for t in S}` holds whenever `A in S` holds (and also for a stranger with the same id): as a REJECTING test it
+        # is the object test or more; the extra part stays an uninterpreted id comparison
+        obj = ast.Compare(left=im[0], ops=[ast.In()], comparators=[im[1]])
+        f_ = ('or', [cond_formula(obj, roles, extra, binder_seen), F_atom('opaque:' + (canon_atom(im[2], lambda x: roles.render(x, extra)) or ('in(?)', 0))[0])])
+        return F_not(f_) if im[3] else f_
     hl = _has_links(e)
     if hl is not None:
         return F_atom(f"haslinks:{hl[0]}({roles.render(hl[1], extra)})")
@@ -517,6 +559,23 @@ def cond_formula(e: ast.AST, roles: Roles, extra: Dict[str, str], binder_seen: l
         a = F_atom(ca[0])
         return F_not(a) if ca[1] else a
     return F_atom('opaque:' + roles.render(e, extra))
+
+
+def _id_membership(e: ast.AST):
+    """`A.id in {t.id for t in S}` (set / list / generator of ids of S, also through set(..)) -> (A, S, positive compare, negated?)"""
+    if not (isinstance(e, ast.Compare) and len(e.ops) == 1 and isinstance(e.ops[0], (ast.In, ast.NotIn))):
+        return None
+    l, r = e.left, e.comparators[0]
+    if not (isinstance(l, ast.Attribute) and l.attr == 'id'):
+        return None
+    m = match("set($x)", r) or match("list($x)", r) or match("frozenset($x)", r)
+    comp = m['x'] if m else r
+    if isinstance(comp, (ast.SetComp, ast.ListComp, ast.GeneratorExp)) and len(comp.generators) == 1 and not comp.generators[0].ifs and \
+            isinstance(comp.generators[0].target, ast.Name) and isinstance(comp.elt, ast.Attribute) and comp.elt.attr == 'id' and \
+            isinstance(comp.elt.value, ast.Name) and comp.elt.value.id == comp.generators[0].target.id:
+        pos = ast.Compare(left=l, ops=[ast.In()], comparators=[r])
+        return l.value, comp.generators[0].iter, pos, isinstance(e.ops[0], ast.NotIn)
+    return None
 
 
 def _has_links(e: ast.AST):
@@ -757,7 +816,7 @@ def expand_call(prog, f: Func, typer, call: ast.Call, inline: bool = False) -> a
     ex = Expander(prog, f, typer, inline=inline)
     cfg = cfg_of(f)
     at = cfg.node_containing(call)
-    out = ex.expand(call, at)
+    out = fold_const(ex.expand(call, at))
     fl = flow_of(f)
     fn = out.func if isinstance(out, ast.Call) else None
     if isinstance(fn, ast.Attribute) and isinstance(fn.value, ast.Name) and at is not None:
@@ -766,6 +825,6 @@ def expand_call(prog, f: Func, typer, call: ast.Call, inline: bool = False) -> a
                 len(fl.defs_of(fn.value.id)) == 1:
             new = copy.copy(out)
             new.func = copy.copy(fn)
-            new.func.value = ex.expand(d.value, d.node)
+            new.func.value = fold_const(ex.expand(d.value, d.node))
             out = new
     return out
